@@ -6,6 +6,7 @@ import (
 	"fmt"
 	"sort"
 	"strings"
+	"sync/atomic"
 	"testing"
 
 	"github.com/cockroachdb/pebble/internal/arenaskl"
@@ -27,7 +28,7 @@ type h struct {
 	reader  string // "", "bwd", "fwd"
 	l       *arenaskl.Skiplist
 	errs    []error
-	done    []bool
+	done    []atomic.Bool // read by the reader while inserters run: goes through the scheduler shims
 	obs     []string // reader observation
 	sawDone []string // keys whose Add had returned when the reader started
 }
@@ -45,7 +46,7 @@ func (s *h) Setup() {
 		}
 	}
 	s.errs = make([]error, len(s.threads))
-	s.done = make([]bool, len(s.threads))
+	s.done = make([]atomic.Bool, len(s.threads))
 }
 
 func (s *h) Threads() []func() {
@@ -56,13 +57,13 @@ func (s *h) Threads() []func() {
 			t := vsched.Cur()
 			t.RandQueue = []uint64{uint64(arenaskl.VerifRndForHeight(s.threads[i].height)) << 32}
 			s.errs[i] = s.l.Add(ikey(s.threads[i].key, s.threads[i].seq), []byte("v"))
-			s.done[i] = true
+			s.done[i].Store(true)
 		})
 	}
 	if s.reader != "" {
 		fs = append(fs, func() {
-			for i, d := range s.done {
-				if d && s.errs[i] == nil {
+			for i := range s.done {
+				if s.done[i].Load() && s.errs[i] == nil {
 					s.sawDone = append(s.sawDone, fmt.Sprintf("%s#%d", s.threads[i].key, s.threads[i].seq))
 				}
 			}
